@@ -105,6 +105,12 @@ theorem step_copy_sites :
       ["Copy", "Exec", "NewBindings", "Copy", "Extend", "Extend", "Copy", "consider", "Copy",
        "Extendm", "Copy", "Copy"] := by decide
 
+/-- C06: … and those of `Walk` (`walkStrideH`, `walkLoopH`): `Step`; for a nil stride `NewStride()` and
+    `From = st.Copy()`; on a step error `st.Bs.Copy().Extendm(…, st.Bs.Copy())`; and between
+    iterations `st = stride.To.Copy()`. -/
+theorem walk_copy_sites :
+    seq "Spec.Walk.ownership" = ["Step", "NewStride", "Copy", "Extendm", "Copy", "Copy", "Copy"] := by decide
+
 /-- C05: the loop bound, the pop and the remainder reports of `Walk`. -/
 theorem walk_accounting_sites :
     stmt "Spec.Walk.for" = ["i < c.Limit"] ∧ stmt "Spec.Walk.pendings" = ["pendings[1:]"] ∧
